@@ -940,6 +940,7 @@ func runC14(c *Ctx) {
 	runtime.GOMAXPROCS(4)
 	// 0. corpus: minimised witnesses of the repaired defects and of the recorded finding (label scripts)
 	c14Corpus(c)
+	c14InfoJobs(c) // Jobs whose completion runs type-specific result processing (c14_s3.go)
 
 	// 1. exhaustive small interleavings: one Job, {handle, Cancel} / {handle, handle} / {Cancel, Cancel,
 	//    handle} / {handle, Wait} / {handle, IsDone} / {handle, accept} / {handle, frag}, every order of the atomic actions
